@@ -367,8 +367,16 @@ class Pep3333Stream:
             yield ln
 
 
-def run_request(body: bytes, content_type: str, *, mcl=None, maxmem=None, maxparts=None, has_cl=True, term=False, stream_kind="full") -> dict:
-    """Request.form / Request.files under the three limits; returns result + bytes consumed from wsgi.input."""
+WARMUP_BODY = (b"--w\r\nContent-Disposition: form-data; name=\"a\"\r\n\r\n1\r\n--w\r\nContent-Disposition: form-data; "
+               b"name=\"b\"\r\n\r\n22\r\n--w--\r\n")
+
+
+def run_request(body: bytes, content_type: str, *, mcl=None, maxmem=None, maxparts=None, has_cl=True, term=False, stream_kind="full",
+                entry="request") -> dict:
+    """Form parsing under the three limits; returns result + bytes consumed from wsgi.input.
+    entry: "request" (Request.form / .files), "parse_form_data" (the function, limits as arguments), "from_environ"
+    (FormDataParser(...).parse_from_environ), "reused" (one FormDataParser that first parsed another multipart body
+    under other limits, then had its public limit attributes assigned, then parses this one)."""
     from werkzeug.exceptions import RequestEntityTooLarge
     from werkzeug.test import EnvironBuilder
     from werkzeug.wrappers import Request
@@ -391,8 +399,28 @@ def run_request(body: bytes, content_type: str, *, mcl=None, maxmem=None, maxpar
 
     res = {"err": "", "fields": [], "files": []}
     try:
-        r = R(env)
-        form, files = r.form, r.files
+        if entry == "request":
+            r = R(env)
+            form, files = r.form, r.files
+        elif entry == "parse_form_data":
+            from werkzeug.formparser import parse_form_data
+            _, form, files = parse_form_data(env, max_form_memory_size=maxmem, max_content_length=mcl, max_form_parts=maxparts)
+        else:
+            from werkzeug.formparser import FormDataParser
+            if entry == "reused":
+                p = FormDataParser(max_form_memory_size=None if maxmem is not None else 1, max_content_length=None,
+                                   max_form_parts=None if maxparts is not None else 1)
+                wenv = EnvironBuilder(method="POST").get_environ()
+                wenv.update({"wsgi.input": io.BytesIO(WARMUP_BODY), "CONTENT_TYPE": "multipart/form-data; boundary=w",
+                             "CONTENT_LENGTH": str(len(WARMUP_BODY))})
+                try:
+                    p.parse_from_environ(wenv)
+                except RequestEntityTooLarge:
+                    pass
+                p.max_form_memory_size, p.max_form_parts, p.max_content_length = maxmem, maxparts, mcl
+            else:
+                p = FormDataParser(max_form_memory_size=maxmem, max_content_length=mcl, max_form_parts=maxparts)
+            _, form, files = p.parse_from_environ(env)
         res["fields"] = [[cps(k), cps(v)] for k, v in form.items(multi=True)]
         out = []
         for k, f in files.items(multi=True):
